@@ -145,18 +145,20 @@ Proof.
     rewrite (at_row_map af_end fs i f Hi). reflexivity. }
   eapply bind_eq; [exact Hen|]. cbv beta.
   assert (Hit : (if vgte v 3 0
-                 then match (if vgte v 3 0 then Some (0%Z :: offsets_from 0 fs) else None),
-                            (if vgte v 3 0 then Some (List.concat (map af_items fs)) else None) with
-                      | Some offs, Some items =>
+                 then match (if vgte v 3 0 then Some (0%Z :: offsets_from 0 fs) else None) with
+                      | Some offs =>
                           a <- at_row offs i ;; b <- at_row offs (S i) ;;
-                          rs <- all_ok (map (fun k => at_row items k) (seq (Z.to_nat a) (Z.to_nat b - Z.to_nat a))) ;;
+                          rs <- all_ok (map (fun k => match (if vgte v 3 0 then Some (List.concat (map af_items fs)) else None) with
+                                                      | Some items => at_row items k
+                                                      | None => Panic 604
+                                                      end) (seq (Z.to_nat a) (Z.to_nat b - Z.to_nat a))) ;;
                           Ok (Some (map (row_vals v "Item") rs))
-                      | _, _ => Panic 604
+                      | None => Panic 604
                       end
                  else Ok None)
                 = Ok (fv_items (view_of f))).
   { unfold view_of. cbn [fv_items]. destruct (vgte v 3 0) eqn:Ev; [|reflexivity].
-    apply c13_items; assumption. }
+    cbv beta iota. apply c13_items; assumption. }
   eapply bind_eq; [exact Hit|]. cbv beta. reflexivity.
 Qed.
 
